@@ -352,3 +352,13 @@ package utils
 //@   requires orgId >= 0
 //@   ensures [org-is-its-own-field-of-the-stream-id] uf("dashField1", int64, result) == orgId
 //@ end
+
+// C05 (results of overlapping segments are returned newest first): the k-way
+// merge of already ordered runs.  Generic over the element type and
+// parameterised by a comparator function: outside the verifier's subset, so a
+// BOUNDED stand-in (never counted as proved) exercises the real function on
+// every input within the bound.
+//@ func MergeSortedSlices
+//@   props C05
+//@   bounded utils/mergesortedslices_test.go Test_Bounded_MergeSortedSlices k<=3 runs, each non-decreasing of length<=3 over values 0..3, comparators < and > (85750 inputs): result ordered and a permutation of the inputs
+//@ end
